@@ -55,6 +55,8 @@ RTOL_TPS = 1e-8  # x coordinate scale          : TPS interpolation / reverse fit
 
 MAXR = {}  # clause -> largest error/tolerance ratio seen (diagnostics only)
 TAG_SUFFIX = [""]  # diagnostics: float32 letters are tallied apart
+MAXR_WHO = {}
+CUR_ROOT = [None]
 
 
 def _err(a, b):
@@ -76,6 +78,7 @@ def _close(tag, a, b, tol):
     tag = tag + TAG_SUFFIX[0]
     if r > MAXR.get(tag, 0.0):
         MAXR[tag] = r
+        MAXR_WHO[tag] = CUR_ROOT[0]
     return e <= tol, e
 
 
@@ -165,8 +168,56 @@ ROT2_DEG = [0, 30, 90, 135, 180, 200, 270, 330, -45, 400]
 ROT2_DEG_THOROUGH = sorted(set(ROT2_DEG + list(range(-165, 181, 15)) + [725, -400]))
 ROT3_AXES = {"x": (1, 0, 0), "y": (0, 1, 0), "z": (0, 0, 1), "g1": (0.2, -0.5, 0.84), "g2": (-0.7, 0.1, 0.3)}
 ROT3_DEG = [30, 135, 200, -60]
-USCALES = [0.25, 0.8, 1.0, 3.0, -1.5, 1e-5, 1e5]  # incl. the identity and both ends of the usable range
-NUSCALES = {2: [(0.5, 2.0), (3.0, 0.3), (-1.2, 0.7), (1.0, 1.0), (2.0, 2.0)], 3: [(0.5, 1.5, 3.0), (2.0, 0.4, 0.9), (-1.0, 2.0, 0.5), (1.0, 1.0, 1.0), (2.0, 2.0, 2.0)]}
+USCALES = [0.25, 0.8, 1.0, 3.0, -1.5, 1e-5, 1e5, 1e-6, 1e-9, 1e6, 1.0 + 1e-7]  # identity, nearly identity, other magnitudes
+NUSCALES = {
+    2: [(0.5, 2.0), (3.0, 0.3), (-1.2, 0.7), (1.0, 1.0), (2.0, 2.0), (0.5e-6, 2.0e-6), (0.5e6, 2.0e6), (1.0 + 1e-7, 1.0 - 2e-7)],
+    3: [(0.5, 1.5, 3.0), (2.0, 0.4, 0.9), (-1.0, 2.0, 0.5), (1.0, 1.0, 1.0), (2.0, 2.0, 2.0), (0.5e-6, 1.5e-6, 3.0e-6), (0.5e6, 1.5e6, 3.0e6), (1.0 + 1e-7, 1.0 - 2e-7, 1.0 + 3e-7)],
+}
+SCALE_KINDS = ("x1e-6", "x1e-9", "x1e6", "tgt-x1e-4", "tgt-x1e-6", "src-x1e-4", "offset1e6", "near-equal-1e-7", "near-equal-1e-9")
+# TPS mixes units in its system matrix (kernel block ~ r^2 log r, affine block ~ 1 and r): it is NOT conditioned
+# uniformly under a change of unit and its documented floor min_singular_val=1e-4 is absolute -> only these kinds
+TPS_SCALE_KINDS = ("near-equal-1e-7", "near-equal-1e-9")
+# AlignmentAffine solves the normal equations a a^T of HOMOGENEOUS coordinates (ones next to the coordinates): at
+# coordinates ~1e-6 / 1e-9 they are ill-conditioned (cond ~ 1e12 / 1e18) and the fitted matrix is not affine any more
+# (last row off by 1e-10 / 1e-7) - a fit defect (C07), reported; not letters here
+# (also with a small SOURCE, src-x1e-4: last row off by 1e-11, and with the offset 5e6: off by 5e-11 in 2-D, a
+# matrix of condition 1e13 in 3-D)
+# the small-target kinds reach the same fit after pseudoinverse + set_target (the small target becomes the source)
+SCALE_EXCLUDED = {("AlignmentAffine", k) for k in ("x1e-6", "x1e-9", "src-x1e-4", "offset1e6", "tgt-x1e-4", "tgt-x1e-6")}
+
+
+def split_scale(root):
+    root = tuple(root)
+    if "scale" in root:
+        i = root.index("scale")
+        return root[:i], root[i + 1]
+    return root, None
+
+
+def scale_letters(tier):
+    """the same payloads at other legal magnitudes (a small subset of the roots), nearly-equal operands, one large size"""
+    out = []
+    for d in (2, 3):
+        for cls in ALIGN_CLASSES:
+            for k in SCALE_KINDS if d == 2 else ("x1e-9", "x1e6", "tgt-x1e-6", "offset1e6"):
+                if (cls, k) not in SCALE_EXCLUDED:
+                    out.append(("A", cls, d, "noisy", "-", 0, "scale", k))
+        out.append(("A", "AlignmentAffine", d, "noisy", "n1000", 0))
+        out.append(("A", "AlignmentSimilarity", d, "noisy", "n1000", 0))
+        # parameters of the plain classes at other magnitudes / nearly the identity
+        out += [("H", "Translation", d, "huge", 0), ("H", "Translation", d, "tiny", 0)]
+        out += [("H", "Similarity", d, "sim", 30, 1e-6, 0), ("H", "Similarity", d, "sim", 30, 1e6, 0)]
+        out += [("H", "Affine", d, "tiny", 0), ("H", "Affine", d, "huge", 0), ("H", "Affine", d, "near-identity", 0)]
+        out += [("H", "Homogeneous", d, "scaled-1e-9", 0), ("H", "Homogeneous", d, "scaled-1e9", 0), ("H", "Homogeneous", d, "near-identity", 0)]
+    out += [("H", "Rotation", 2, "angle", 1e-6), ("H", "Rotation", 3, "axis", "g1", 1e-6)]
+    for cls in ("PythonPWA", "CachedPWA"):
+        for k in SCALE_KINDS:
+            out.append(("PWA", cls, "fan5", "trimesh", "jitter", 0, "scale", k))
+        out.append(("PWA", cls, "grid12", "trimesh", "jitter", 0))  # 144 landmarks, 242 triangles
+    for kern in ("default", "R2LogRRBF"):
+        for k in TPS_SCALE_KINDS:
+            out.append(("TPS", kern, 6, "jitter", "default", 0, "scale", k))
+    return out
 IDENTITY_CLASSES = ["Homogeneous", "Affine", "Similarity", "Rotation", "UniformScale", "NonUniformScale", "Translation"]
 
 
@@ -487,6 +538,8 @@ class C04(Check):
         out += form_letters(self.tier)
         have = set(out)
         out += [b for b in boundary_letters(self.tier) if b not in have]
+        have = set(out)
+        out += [b for b in scale_letters(self.tier) if b not in have]
         return out
 
     # ------------------------------------------------------------------ builders
@@ -537,6 +590,25 @@ class C04(Check):
             R = rodrigues(ax, 25 + 300 * r.rand())
         else:  # Homogeneous in 1-D / 4-D
             R, _ = np.linalg.qr(r.randn(d, d) + 2 * np.eye(d))
+        if cls == "Homogeneous" and letter in ("scaled-1e-9", "scaled-1e9"):
+            L = R.dot(np.diag(0.7 + 0.8 * r.rand(d))) + 0.1 * r.rand(d, d)
+            H = homog(L, trans)
+            H[d, :d] = 0.01 + 0.02 * r.rand(d)
+            H = H * float(letter[7:])  # projectively the same map, every entry at another magnitude
+            return mt.Homogeneous(P(H)), V(H), info
+        if cls in ("Homogeneous", "Affine") and letter == "near-identity":
+            H = np.eye(d + 1)
+            H[:d, :] += 1e-7 * (r.rand(d, d + 1) - 0.5)  # 1e-7: nearly, but far above rounding, not the identity
+            if cls == "Homogeneous":
+                H[d, :d] = 1e-8 * r.rand(d)
+            return getattr(mt, cls)(P(H)), V(H), info
+        if cls == "Affine" and letter in ("tiny", "huge"):
+            f = 1e-6 if letter == "tiny" else 1e6
+            H = homog(f * (R.dot(np.diag(0.7 + 0.8 * r.rand(d))) + 0.15 * r.rand(d, d)), f * trans)
+            return mt.Affine(P(H)), V(H), info
+        if cls == "Translation" and letter in ("tiny", "huge"):
+            tv = (0.5 + 2.0 * r.rand(d)) * (1e-9 if letter == "tiny" else 1e6) * np.array([1.0, -1.0, 1.0][:d])
+            return mt.Translation(P(tv)), homog(np.eye(d), V(tv)), info
         if cls == "Homogeneous" and letter == "perm":
             # swaps (2-D) / cycles (3-D) the last coordinates with the homogeneous one: (x, y) -> (x / y, 1 / y).
             # cond = 1, own corner 0, linear block singular, so the inverse has a zero corner as well
@@ -622,6 +694,27 @@ class C04(Check):
             return mt.Translation(P(tv)), homog(np.eye(d), V(tv)), info
         raise HarnessError("unknown plain letter %r" % (root,))
 
+    def _rescale(self, src, tgt, r):
+        """the payload of a letter re-expressed at another magnitude (self._cur_scale); spread of the base payload ~ 5"""
+        k = getattr(self, "_cur_scale", None)
+        if k is None:
+            return src, tgt
+        if k.startswith("x"):
+            f = float(k[1:])
+            return src * f, tgt * f
+        if k == "tgt-x1e-4":
+            return src * 20.0, tgt * 1e-4  # source at pixel scale, target in a small unit
+        if k == "tgt-x1e-6":
+            return src * 20.0, tgt * 1e-6
+        if k == "src-x1e-4":
+            return src * 1e-4, tgt * 20.0
+        if k == "offset1e6":
+            return src + 5e6, tgt + 5e6  # common offset / spread ~ 1e6
+        if k.startswith("near-equal-"):
+            e = float(k[11:])
+            return src, src * (1.0 + e) + 5.0 * e * (r.rand(*src.shape) - 0.5)  # relative difference e, not equal
+        raise HarnessError("unknown scale kind %r" % (k,))
+
     def _build_align(self, root):
         import menpo.transform as mt
         from menpo.shape import PointCloud, TriMesh
@@ -629,8 +722,11 @@ class C04(Check):
         root, (cform, scont, tcont) = split_form(root)
         cls, d, tl, opt = root[1], int(root[2]), root[3], root[4]
         r = rs(self.seed, "c04", root)
-        n = d + 1 if opt == "minimal" else 8 if opt == "n8" else 1 if opt == "n1" else 2 if opt == "n2" else 5
-        src = generic_points(n, d, self.seed, ("c04-al", root), min_area=MIN_AREA if (d == 2 and n <= 5) else None)
+        n = d + 1 if opt == "minimal" else 8 if opt == "n8" else 1 if opt == "n1" else 2 if opt == "n2" else 1000 if opt == "n1000" else 5
+        if n > 100:
+            src = 0.5 + 5.0 * r.rand(n, d)  # one large size: no pairwise guard needed for a least-squares fit
+        else:
+            src = generic_points(n, d, self.seed, ("c04-al", root), min_area=MIN_AREA if (d == 2 and n <= 5) else None)
         R = rot2(20 + 50 * r.rand()) if d == 2 else rodrigues(r.randn(3), 20 + 50 * r.rand())
         trans = 0.5 + r.rand(d)
         s = 0.6 + r.rand()
@@ -656,6 +752,7 @@ class C04(Check):
             tgt = s * (src - c).dot(M.T).dot(R.T) + c + trans + 0.1 * r.randn(n, d)
         else:
             raise HarnessError(root)
+        src, tgt = self._rescale(src, tgt, r)
         if needs_grid(cform):
             src, tgt = np.round(QUANT["A"] * src), np.round(QUANT["A"] * tgt)
             if n > 1 and _cdist(src, src)[np.triu_indices(n, 1)].min() < 2 or _cdist(tgt, tgt)[np.triu_indices(n, 1)].min() < 2:
@@ -679,6 +776,15 @@ class C04(Check):
         if layout == "fan5":
             return pwa_layout(self.seed, ("c04-pwa", var))
         r = rs(self.seed, "c04-pwa", layout, var)
+        if layout == "grid12":
+            m = 12
+            g = np.array([[0.5 + 5.0 * i / (m - 1), 0.5 + 5.0 * j / (m - 1)] for i in range(m) for j in range(m)]) + (r.rand(m * m, 2) - 0.5) * 0.1
+            tl = []
+            for i in range(m - 1):
+                for j in range(m - 1):
+                    a = m * i + j
+                    tl += [[a, a + 1, a + m + 1], [a, a + m + 1, a + m]]
+            return g, np.array(tl)
         if layout == "tri3":
             return np.array([[0.8, 0.7], [1.0, 5.0], [5.2, 1.6]]) + (r.rand(3, 2) - 0.5) * 0.4, np.array([[0, 1, 2]])
         if layout == "quad":
@@ -728,6 +834,9 @@ class C04(Check):
         else:
             raise HarnessError(root)
         klass = {"PythonPWA": PythonPWA, "CachedPWA": CachedPWA, "PiecewiseAffine": mt.PiecewiseAffine}[cls]
+        if layout == "grid12":
+            tgt = src + 0.12 * (r.rand(*src.shape) - 0.5)  # jitter small against the cell size
+        src, tgt = self._rescale(src, tgt, r)
         q = 1.0
         if needs_grid(cform):
             q = QUANT["PWA"]
@@ -747,8 +856,11 @@ class C04(Check):
         t = klass(S, T)
         trilist = np.array(t.trilist, copy=True)  # for a PointCloud source the triangulation is an input read back
         # non-folding guard (deterministic): every triangle keeps a common orientation in source and in target
-        a_s, a_t = signed_areas(src, trilist) / q ** 2, signed_areas(tgt, trilist) / q ** 2
-        if not ((np.all(a_s > 0.05) or np.all(a_s < -0.05)) and (np.all(a_t > 0.05) or np.all(a_t < -0.05))):
+        # (areas relative to the extent of the point set: the guard is the same at every magnitude)
+        a_s = signed_areas(src, trilist) / (np.ptp(src, axis=0).max() / 5.0) ** 2
+        a_t = signed_areas(tgt, trilist) / (np.ptp(tgt, axis=0).max() / 5.0) ** 2
+        amin = 0.05 if len(trilist) < 50 else 0.01
+        if not ((np.all(a_s > amin) or np.all(a_s < -amin)) and (np.all(a_t > amin) or np.all(a_t < -amin))):
             raise HarnessError("PWA letter %r folds: areas %r %r" % (root, a_s, a_t))
         return t, src, tgt, trilist
 
@@ -781,6 +893,8 @@ class C04(Check):
                 raise HarnessError(root)
             if grid:
                 src, tgt = np.round(src), np.round(tgt)
+            if getattr(self, "_cur_scale", None) and self._cur_scale.startswith("near-equal"):
+                src, tgt = self._rescale(src, tgt, r)
             src, tgt = values_of(present(src, fs)), values_of(present(tgt, ft))
             # general position / conditioning guard on both directions (the reverse fit is centred on the target)
             ok = _cdist(tgt, tgt)[np.triu_indices(n, 1)].min() >= 0.5 * scale and _cdist(src, src)[np.triu_indices(n, 1)].min() >= 0.5 * scale
@@ -793,6 +907,13 @@ class C04(Check):
                 break
         else:
             raise HarnessError("TPS guard cannot be satisfied for %r" % (root,))
+        if getattr(self, "_cur_scale", None) and self._cur_scale.startswith("x"):
+            # general position was guarded at unit scale; the change of unit must not trip the absolute floor
+            src, tgt = self._rescale(src, tgt, r)
+            scale = scale * float(self._cur_scale[1:])
+            for pts in (src, tgt):
+                if np.linalg.svd(tps_system(pts, kname), compute_uv=False).min() < 10 * msv:
+                    raise HarnessError("TPS scale letter %r trips the singular value floor" % (root,))
         kernel = None if kern == "default" else getattr(mt, kern)(present(src, fs))
         tri6 = [[0, 1, 2], [3, 4, 5]]
         if scont == "-":
@@ -807,6 +928,9 @@ class C04(Check):
     def build(self, root):
         fam = root[0]
         st = {"fam": fam, "root": root, "n_inv": 0, "n_ret": 0, "n_comp": 0, "info": {}, "kept": []}
+        root, skind = split_scale(root)  # the builders see the letter without its magnitude suffix
+        self._cur_scale = skind
+        st["skind"] = skind
         base, form = split_form(root)
         st["form"] = form
         # float32 payloads make menpo compute in float32 (homogeneous matrices, barycentric vectors): those letters are
@@ -844,19 +968,47 @@ class C04(Check):
         st["H"] = np.array(H, dtype=float, copy=True)
         st["Hinv"] = np.linalg.solve(st["H"], np.eye(H.shape[0]))
         d = H.shape[0] - 1
-        if np.abs(st["H"][d, :d]).max() < 1e-12 and abs(st["H"][d, d] - 1) < 1e-12:
+        if np.abs(st["H"][d, :d]).max() < 1e-9 and abs(st["H"][d, d] - 1) < 1e-9:
             # affine: errors are amplified by the linear part only (the size of the translation enters the
             # tolerances through the coordinate scale of the probe images)
             st["cond"] = float(np.linalg.cond(st["H"][:d, :d]))
         else:
             st["cond"] = float(np.linalg.cond(st["H"]))
-        if _err(st["H"].dot(st["Hinv"]), np.eye(H.shape[0])) > 1e-9 or st["cond"] > 1e4:
+        if _err(st["H"].dot(st["Hinv"]), np.eye(H.shape[0])) > 1e-9 * max(1.0, np.abs(st["H"]).max() * np.abs(st["Hinv"]).max()) or st["cond"] > 1e4:
             raise HarnessError("reference matrix is badly conditioned (cond %.3g) for %r" % (st["cond"], st["root"]))
 
     def canon(self, st):
         # 'warm' (the live object has already produced an inverse before its target moved) is not observable
         # through the public API, but it is exactly what a remembered inverse would depend on: keep it in the key
-        return (st["n_inv"] % 2, st["n_ret"], st["n_comp"], bool(st.get("warm")), obs_key(observe(st["t"])))
+        # numeric part of the key = the REFERENCE MODEL (which every step oracle has just compared with the live object):
+        # the live matrices carry rounding noise amplified by the conditioning (inv(inv(H)) vs H), the model does not,
+        # so states reached by different histories merge exactly and have exactly equal successors
+        t = st["t"]
+        model = {k: st[k] for k in ("H", "src", "tgt", "trilist", "kern", "msv") if k in st}
+        shape = (type(t).__name__, str(getattr(getattr(t, "h_matrix", None), "dtype", "")), type(getattr(t, "source", None)).__name__, type(getattr(t, "target", None)).__name__)
+        return (st["n_inv"] % 2, st["n_ret"], st["n_comp"], bool(st.get("warm")), shape, obs_key(self._normalised(model)))
+
+    @classmethod
+    def _normalised(cls, o):
+        """float arrays as (decimal exponent, mantissa) per element: the canonical key then keeps 9 SIGNIFICANT digits at
+        every magnitude (obs_key alone rounds to 9 decimals)"""
+        if isinstance(o, np.ndarray):
+            if o.dtype.kind == "f" and o.size:
+                # element by element: decimal exponent and mantissa (small entries next to large ones keep their digits)
+                a = np.where(np.isfinite(o), o, 0.0)
+                with np.errstate(all="ignore"):
+                    e = np.where(a != 0, np.floor(np.log10(np.abs(np.where(a != 0, a, 1.0)))), 0.0)
+                mant = np.round(a / 10.0 ** e, 9)
+                over = np.abs(mant) >= 10.0
+                mant = np.where(over, mant / 10.0, mant)
+                e = np.where(over, e + 1, e)
+                return {"exp": e.astype(int), "mant": mant, "finite": np.isfinite(o)}
+            return o
+        if isinstance(o, dict):
+            return {k: cls._normalised(v) for k, v in o.items()}
+        if isinstance(o, (list, tuple)):
+            return [cls._normalised(v) for v in o]
+        return o
 
     def is_query(self, op):
         return op[0] in ("pinv_vec", "tc_pair", "apply_forms", "refuse")
@@ -892,7 +1044,7 @@ class C04(Check):
             d = st["d"]
             X = self._safe_probes(st, which)
             if fam == "A":
-                X = np.vstack([X, st["src"]])
+                X = np.vstack([self._around(st["src"], X), st["src"][:8]])
             if fam == "TC":
                 X = np.vstack([X / 6.0, np.array([[0.0, 0.0], [1.0, 0.0], [0.0, 1.0], [1.0, 1.0]])])
             Y = h_apply(st["H"], X)
@@ -901,6 +1053,15 @@ class C04(Check):
             X, Y = pwa_pairs(st["src"], st["tgt"], st["trilist"])
             return (X, Y) if which == "fwd" else (Y, X)
         raise HarnessError(fam)
+
+    @staticmethod
+    def _around(pts, G):
+        """generic points G of [0.5, 5.5]^d moved into the region (centre, radius) of a landmark set"""
+        c = pts.mean(axis=0)
+        rho = float(np.abs(pts - c).max())
+        if rho == 0:
+            rho = max(float(np.abs(c).max()), 1.0) * 0.5
+        return c + (G - 3.0) / 2.5 * rho
 
     def _generic(self, n, d, salt):
         if d == 1:  # six points at pairwise distance >= 0.8 do not fit a random draw on [0.5, 5.5]
@@ -932,13 +1093,35 @@ class C04(Check):
             raise HarnessError("no probe points away from the horizon for %r" % (st["root"],))
         return X
 
-    def _map_tol(self, st, *arrays):
-        scale = max([1.0] + [float(np.abs(a).max()) for a in arrays if np.size(a)])
+    def _mag(self, st, space):
+        """magnitude of the data that lives in the source ('src') / target ('tgt') space of the current map: landmark
+        coordinates, and the translation the map adds on its way into that space"""
+        m = 0.0
+        if "H" in st:
+            Hm = st["H"] if space == "tgt" else st["Hinv"]
+            d = Hm.shape[0] - 1
+            if abs(Hm[d, d]) > 1e-12 * np.abs(Hm).max():
+                m = float(np.abs(Hm[:d, d] / Hm[d, d]).max())
+        if "src" in st:
+            pts = st["tgt"] if space == "tgt" else st["src"]
+            m = max(m, float(np.abs(pts).max()))
+        return m
+
+    def _map_tol(self, st, *arrays, **kw):
+        """tolerance RELATIVE to the magnitude of the data: of the arrays given (the expected output, possibly the
+        input) and, with space='src'/'tgt', of everything that lives in the space the output belongs to"""
+        mags = [float(np.abs(a).max()) for a in arrays if np.size(a)]
+        if kw.get("space"):
+            mags.append(self._mag(st, kw["space"]))
+        scale = max(mags) if mags and max(mags) > 0 else 1.0
         return RTOL_MAP * max(1.0, st.get("cond", 1.0)) * scale * st.get("tolx", 1.0)
 
+    def _tps_tol(self, st, space):
+        pts = st["tgt"] if space == "tgt" else st["src"]
+        return RTOL_TPS * float(np.abs(pts).max()) / 4.0
+
     def _tps_points(self, st):
-        sc = st["scale"]
-        return generic_points(7, 2, self.seed, ("c04-tps-probe",)) * sc
+        return self._around(st["src"], generic_points(7, 2, self.seed, ("c04-tps-probe",)))
 
     # ------------------------------------------------------------------ root oracle
     def check_root(self, st, root):
@@ -948,19 +1131,48 @@ class C04(Check):
         fam = st["fam"]
         if fam in ("H", "A", "TC", "PWA"):
             X, Y = self._probes(st, "fwd")
-            ok, e = _close("root-map", t.apply(X.copy()), Y, self._map_tol(st, X, Y))
+            ok, e = _close("root-map", t.apply(X.copy()), Y, self._map_tol(st, Y, space="tgt"))
             if not ok:
                 fails.append(Failure(st["cls"], "input-map-differs-from-model", "root %r: max error %.3g" % (root, e)))
         else:
             X = self._tps_points(st)
-            ok, e = _close("root-tps", t.apply(X.copy()), tps_fit(st["src"], st["tgt"], st["kern"])(X), RTOL_TPS * st["scale"])
+            ok, e = _close("root-tps", t.apply(X.copy()), tps_fit(st["src"], st["tgt"], st["kern"])(X), self._tps_tol(st, "tgt"))
             if not ok:
                 fails.append(Failure(st["cls"], "input-map-differs-from-model", "root %r: max error %.3g" % (root, e)))
         if fam == "A":
             if not (np.array_equal(t.source.points, st["src"]) and np.array_equal(t.target.points, st["tgt"])):
                 fails.append(Failure(st["cls"], "input-map-differs-from-model", "alignment does not hold the source/target it was given"))
         self._structure_notes(st)
+        if st.get("skind") and st["n_inv"] == 0 and st["n_ret"] == 0 and st["n_comp"] == 0:
+            self.note("scale:%s:%s" % (fam, st["skind"]))
+            if st["skind"].startswith("x") and fam in ("A", "PWA", "TPS"):
+                fails.extend(self._equivariance(st))
         return fails
+
+    def _equivariance(self, st):
+        """change of unit: the inverse built from s x (source, target) is the inverse built from (source, target)
+        conjugated with the scaling, p_s(s y) == s p_1(y)"""
+        f = float(st["skind"][1:])
+        base_root, _ = split_scale(st["root"])
+        keep = self._cur_scale
+        st1 = self.build(base_root)
+        self._cur_scale = keep
+        p1, ps = st1["t"].pseudoinverse(), st["t"].pseudoinverse()
+        if st["fam"] == "TPS":
+            Y1 = self._around(st1["tgt"], generic_points(7, 2, self.seed, ("c04-tps-probe",)))
+            tol = self._tps_tol(st, "src")
+        else:
+            _, Y1 = self._probes(st1, "fwd")
+            tol = self._map_tol(st, st["src"], space="src")
+        a = self._try_apply(ps, f * Y1)
+        b = self._try_apply(p1, Y1)
+        if isinstance(a, str) or isinstance(b, str):
+            return [Failure(st["cls"], "scale-equivariance", "root %r: %s / %s" % (st["root"], a if isinstance(a, str) else "ok", b if isinstance(b, str) else "ok"))]
+        ok, e = _close("equivariance", a, f * b, tol)
+        if not ok:
+            return [Failure(st["cls"], "scale-equivariance", "root %r: inverse of the %g-scaled alignment differs from the scaled inverse by %.3g (tol %.2g)" % (st["root"], f, e, tol))]
+        self.note("equivariance:%s" % st["fam"])
+        return []
 
     def _structure_notes(self, st):
         fam = st["fam"]
@@ -986,6 +1198,8 @@ class C04(Check):
                 self.note("boundary:homogeneous-%dd" % d)
             if fam == "A" and st["src"].shape[0] <= 2:
                 self.note("boundary:alignment-%d-point(s)" % st["src"].shape[0])
+            if fam == "A" and st["src"].shape[0] >= 1000:
+                self.note("structure:large-size")
             if fam == "A" and np.array_equal(st["src"], st["tgt"]):
                 self.note("boundary:alignment-target-equals-source")
             if np.abs(H[d, :d]).max() > 1e-6:
@@ -1005,6 +1219,8 @@ class C04(Check):
                 self.note("structure:pwa-orientation-reversing")
             if len(st["trilist"]) == 1:
                 self.note("boundary:pwa-single-triangle")
+            if len(st["trilist"]) > 100:
+                self.note("structure:large-size")
         if fam == "TPS":
             for nm, pts in (("source", st["src"]), ("target", st["tgt"])):
                 s = np.linalg.svd(tps_system(pts, st["kern"]), compute_uv=False)
@@ -1025,39 +1241,42 @@ class C04(Check):
         if H.shape != (d + 1, d + 1) or not np.all(np.isfinite(H)):
             return ["h_matrix has shape %r / non finite entries" % (H.shape,)]
         L, tr = H[:d, :d], H[:d, d]
-        sc = max(1.0, float(np.abs(L).max())) ** 2
-        tol = RTOL_HONEST * sc * max(1.0, st_after["cond"]) * st_after.get("tolx", 1.0)
+        lmax = max(float(np.abs(L).max()), 1e-300)
+        rel = RTOL_HONEST * max(1.0, st_after["cond"]) * st_after.get("tolx", 1.0)
 
-        def chk(tag, a, b):
-            ok, e = _close("honest-" + tag, a, b, tol)
+        def chk(tag, a, b, scale):
+            # every predicate is judged relative to the magnitude of the quantity it constrains
+            ok, e = _close("honest-" + tag, a, b, rel * scale)
             if not ok:
                 out.append("%s violated by %.3g" % (tag, e))
 
         if isinstance(p, mt.Affine):
-            chk("Affine: last row (0..0 1)", H[d], np.eye(d + 1)[d])
+            # a generic matrix inverse leaves rounding noise ~ eps x cond(whole matrix) in the last row
+            chk("Affine: last row (0..0 1)", H[d], np.eye(d + 1)[d], max(1.0, 100 * np.finfo(float).eps * np.linalg.cond(H) / rel))
         if isinstance(p, mt.Similarity):
             s2 = np.trace(L.T.dot(L)) / d
-            chk("Similarity: LtL = s^2 I", L.T.dot(L), s2 * np.eye(d))
+            chk("Similarity: LtL = s^2 I", L.T.dot(L), s2 * np.eye(d), lmax ** 2)
         if isinstance(p, mt.Rotation):
-            chk("Rotation: LtL = I", L.T.dot(L), np.eye(d))
-            chk("Rotation: zero translation", tr, np.zeros(d))
+            chk("Rotation: LtL = I", L.T.dot(L), np.eye(d), 1.0)
+            chk("Rotation: zero translation", tr, np.zeros(d), 1.0)
             want = np.sign(np.linalg.det(st_after["H"][:d, :d]))
             if np.sign(np.linalg.det(L)) != want:
                 out.append("Rotation: determinant sign %+d, inverse of the original has %+d" % (np.sign(np.linalg.det(L)), want))
         if isinstance(p, mt.Translation):
-            chk("Translation: L = I", L, np.eye(d))
+            chk("Translation: L = I", L, np.eye(d), 1.0)
         if isinstance(p, mt.UniformScale):
-            chk("UniformScale: L = sI", L, L[0, 0] * np.eye(d))
-            chk("UniformScale: zero translation", tr, np.zeros(d))
+            chk("UniformScale: L = sI", L, L[0, 0] * np.eye(d), lmax)
+            chk("UniformScale: zero translation", tr, np.zeros(d), lmax)
         if isinstance(p, mt.NonUniformScale):
-            chk("NonUniformScale: L diagonal", L, np.diag(np.diag(L)))
-            chk("NonUniformScale: zero translation", tr, np.zeros(d))
+            chk("NonUniformScale: L diagonal", L, np.diag(np.diag(L)), lmax)
+            chk("NonUniformScale: zero translation", tr, np.zeros(d), lmax)
         return out
 
     # ------------------------------------------------------------------ steps
     def apply(self, st, op, verify=True):
         np.random.seed(12345)  # Rotation._axis_and_angle_of_rotation_3d draws from the global stream
         TAG_SUFFIX[0] = " [float32 letter]" if st.get("tolx", 1.0) > 1 else ""
+        CUR_ROOT[0] = (st["root"], st["n_inv"], st["n_ret"], st["n_comp"], op)
         kind = op[0]
         if kind == "refuse":
             return self._op_refuse(st, op, verify)
@@ -1139,14 +1358,14 @@ class C04(Check):
         self._swap_model(after)  # model of p
 
         if fam in ("H", "A", "TC"):
-            tol = self._map_tol(st, X, Yref)
+            tol = self._map_tol(st, X, space="src")  # outputs compared in the source space of t
             # left inverse on the images computed by the real t
             ok, e = _close("left", p.apply(Y_live.copy()), X, tol)
             if not ok:
                 bad("left-inverse", "p(t(X)) != X, max error %.3g (tol %.2g)" % (e, tol))
             # right inverse on points of the range
             X2, _ = self._probes(after, "fwd")  # = reference images of a second probe set: in the domain of p
-            ok, e = _close("right", t.apply(np.asarray(p.apply(X2.copy()))), X2, tol)
+            ok, e = _close("right", t.apply(np.asarray(p.apply(X2.copy()))), X2, self._map_tol(st, X2, space="tgt"))
             if not ok:
                 bad("right-inverse", "t(p(X)) != X, max error %.3g (tol %.2g)" % (e, tol))
             # against the reference inverse (for pinv-of-inverse this is the ORIGINAL forward map)
@@ -1185,7 +1404,7 @@ class C04(Check):
         if fam == "PWA":
             if tri_set(p.trilist) != tri_set(st["trilist"]):
                 bad("trilist", "inverse is built on triangles %r, original on %r" % (sorted(tri_set(p.trilist)), sorted(tri_set(st["trilist"]))))
-            tol = self._map_tol(st, X, Yref)
+            tol = self._map_tol(st, X, space="src")
             res = self._try_apply(p, Y_live)
             ok, e = (False, res) if isinstance(res, str) else _close("left", res, X, tol)
             if not ok:
@@ -1194,7 +1413,7 @@ class C04(Check):
             res = self._try_apply(p, X2)
             if not isinstance(res, str):
                 res = self._try_apply(t, res)
-            ok, e = (False, res) if isinstance(res, str) else _close("right", res, X2, tol)
+            ok, e = (False, res) if isinstance(res, str) else _close("right", res, X2, self._map_tol(st, X2, space="tgt"))
             if not ok:
                 bad("right-inverse", "t(p(Y)) != Y on interior points of the target triangles: %s" % (e,))
             res = self._try_apply(p, Yref)
@@ -1211,11 +1430,11 @@ class C04(Check):
                 lm_s = np.vstack([W.dot(st["src"][tri]) for tri in st["trilist"]])
                 self.note("interpolation:landmarks-approached-from-inside(float32)")
             res = self._try_apply(p, lm_t)
-            ok, e = (False, res) if isinstance(res, str) else _close("interp", res, lm_s, 1e-8 * max(1.0, float(np.abs(st["src"]).max())) * st["tolx"])
+            ok, e = (False, res) if isinstance(res, str) else _close("interp", res, lm_s, 1e-8 * float(np.abs(st["src"]).max()) * st["tolx"])
             if not ok:
                 bad("interpolation", "target landmarks are not sent back onto the source landmarks: %s" % (e,))
         if fam == "TPS":
-            sc = st["scale"]
+            sc = self._tps_tol(st, "src") / RTOL_TPS
             ok, e = _close("interp-tps", p.apply(st["tgt"].copy()), st["src"], RTOL_TPS * sc)
             if not ok:
                 bad("interpolation", "target landmarks are not sent back onto the source landmarks: max error %.3g (landmark scale %.3g)" % (e, sc))
@@ -1275,11 +1494,11 @@ class C04(Check):
             # the original had at that time)
             if m["fam"] == "TPS":
                 X = self._tps_points(m)
-                ok, e = _close("kept-tps", k["obj"].apply(X.copy()), tps_fit(m["src"], m["tgt"], m["kern"])(X), RTOL_TPS * m["scale"])
+                ok, e = _close("kept-tps", k["obj"].apply(X.copy()), tps_fit(m["src"], m["tgt"], m["kern"])(X), self._tps_tol(m, "tgt"))
             else:
                 X, Y = self._probes(m, "fwd")
                 res = self._try_apply(k["obj"], X)
-                ok, e = (False, res) if isinstance(res, str) else _close("kept-map", res, Y, self._map_tol(m, X, Y))
+                ok, e = (False, res) if isinstance(res, str) else _close("kept-map", res, Y, self._map_tol(m, Y, space="tgt"))
             if not ok:
                 fails.append(Failure(st["cls"], clause, "after %s the %s #%d of root %r is no longer the map it was when it was returned: %s" % (what, label, i, st["root"], e)))
             else:
@@ -1314,11 +1533,13 @@ class C04(Check):
                 A = rot2(ang).dot(np.diag([1.15, 0.9]))
             else:
                 A = rodrigues((0.3, 0.5, -0.8), ang).dot(np.diag([1.15, 0.9, 1.05]))
-            new = (src - c).dot(A.T) + c + 0.1 * size * (1 + k) + 0.04 * size * (r.rand(*src.shape) - 0.5)
+            big = st["fam"] == "PWA" and len(st["trilist"]) > 50
+            new = (src - c).dot(A.T) + c + 0.1 * size * (1 + k) + (0.005 if big else 0.04) * size * (r.rand(*src.shape) - 0.5)
             # deterministic guards: the retargeted warp stays inside the quantifier of the property
             if st["fam"] == "PWA":
-                a_t = signed_areas(new, st["trilist"])
-                if not (np.all(a_t > 0.05) or np.all(a_t < -0.05)):
+                a_t = signed_areas(new, st["trilist"]) / (size / 5.0) ** 2  # relative to the extent, as in build
+                amin = 0.01 if big else 0.05
+                if not (np.all(a_t > amin) or np.all(a_t < -amin)):
                     continue
             if st["fam"] == "TPS":
                 sv = np.linalg.svd(tps_system(new, st["kern"]), compute_uv=False)
@@ -1396,7 +1617,7 @@ class C04(Check):
             return []
         self.note("compose:%s" % ("accepted" if accepted else "refused"))
         X, Y = self._probes(st, "fwd")
-        ok, e = _close("compose-map", t.apply(X.copy()), Y, self._map_tol(st, X, Y))
+        ok, e = _close("compose-map", t.apply(X.copy()), Y, self._map_tol(st, Y, space="tgt"))
         if not ok:
             return [Failure(st["cls"], "input-map-differs-from-model", "after compose_%s_inplace(%s) [%s] on %r: max error %.3g" % (side, name, "accepted" if accepted else "refused", st["root"], e))]
         return self._check_kept(st, "compose_%s_inplace(%s)" % (side, name))
@@ -1466,7 +1687,8 @@ class C04(Check):
                 return (lambda: type(t)(t.source, pc)), [pc, t.source]
             return (lambda: t.set_target(pc)), [pc]
         if kind == "apply-outside-domain":
-            X = np.vstack([st["src"][st["trilist"][0]].mean(axis=0), [100.0, 100.0]])  # one point inside, one far outside
+            far = st["src"].max(axis=0) + 10.0 * np.ptp(st["src"], axis=0).max()
+            X = np.vstack([st["src"][st["trilist"][0]].mean(axis=0), far])  # one point inside, one far outside
             return (lambda: t.apply(X)), [X]
         raise HarnessError(kind)
 
@@ -1534,7 +1756,11 @@ class C04(Check):
         fails = []
         X, _ = self._probes(st, "fwd")
         Y0 = np.asarray(t0.apply(X.copy()))
-        tol = self._map_tol(st, X, Y0) * 10
+        # [interp] the documented vector forms store DELTAS FROM THE IDENTITY (a = k cos - 1, h - I): a linear part of
+        # magnitude m << 1 (in the transform or in its inverse) keeps only eps / m relative precision
+        d_ = st["d"]
+        m_ = min(float(np.abs(st["H"][:d_, :d_]).max()), float(np.abs(st["Hinv"][:d_, :d_]).max()), 1.0)
+        tol = self._map_tol(st, X, Y0) * 10 * max(1.0, 1e-5 / max(m_, 1e-300))
         ok, e = _close("vec-left", q.apply(Y0.copy()), X, tol)
         if not ok:
             fails.append(Failure(cls, "vector-left-inverse", "from_vector(pseudoinverse_vector(v)) does not undo from_vector(v): %.3g, root %r" % (e, st["root"])))
@@ -1573,7 +1799,7 @@ class C04(Check):
                 Xp = present(X, form)
                 Xv = values_of(Xp)
                 Yv = h_apply(st["H"], Xv)
-                tol = self._map_tol(st, Xv, Yv)
+                tol, tol_back = self._map_tol(st, Yv, space="tgt"), self._map_tol(st, Xv, space="src")
             elif fam == "PWA":
                 X, _ = self._probes(st, "fwd")
                 if integer:
@@ -1587,11 +1813,11 @@ class C04(Check):
                 if size is not None:
                     Xv, Yv = Xv[:size], Yv[:size]
                 Xp = present(Xv, form)
-                tol = self._map_tol(st, Xv, Yv)
+                tol, tol_back = self._map_tol(st, Yv, space="tgt"), self._map_tol(st, Xv, space="src")
             else:
                 X = self._tps_points(st)
                 if integer:
-                    if st["scale"] < 1:
+                    if np.abs(st["src"]).max() < 3:
                         continue  # landmark coordinates of order 1e-2: no integer points in the region
                     X = np.unique(np.round(X), axis=0)
                 if size is not None:
@@ -1599,22 +1825,22 @@ class C04(Check):
                 Xp = present(X, form)
                 Xv = values_of(Xp)
                 Yv = tps_fit(st["src"], st["tgt"], st["kern"])(Xv)
-                tol = RTOL_TPS * st["scale"]
+                tol = self._tps_tol(st, "tgt")
             form = {1: "one", 0: "empty"}.get(size, form)
             y = np.asarray(t.apply(Xp))
             if y.dtype == np.float32:
-                tol = max(tol, 1e-3 * max(1.0, float(np.abs(Yv).max())))
+                tol = max(tol, 1e-3 * float(np.abs(Yv).max()) if np.size(Yv) else tol)
             ok, e = _close("form-fwd", y, Yv, tol)
             if not ok:
                 fails.append(Failure(cls, "map-depends-on-argument-form", "apply(points as %s) differs from the map of the same values by %.3g (root %r)" % (form, e, st["root"])))
                 continue
             if fam == "TPS":
                 back = np.asarray(p.apply(present(st["tgt"], form if not (integer or size is not None) else "f64")))
-                ok, e = _close("form-interp", back, st["src"], RTOL_TPS * st["scale"] * (1e5 if back.dtype == np.float32 or form == "f32" else 1.0))
+                ok, e = _close("form-interp", back, st["src"], self._tps_tol(st, "src") * (1e5 if back.dtype == np.float32 or form == "f32" else 1.0))
                 want = "target landmarks (as %s) are not sent back onto the source landmarks" % form
             else:
                 back = self._try_apply(p, y)
-                ok, e = (False, back) if isinstance(back, str) else _close("form-left", back, Xv, tol)
+                ok, e = (False, back) if isinstance(back, str) else _close("form-left", back, Xv, max(tol_back, 1e-3 * float(np.abs(Xv).max())) if (y.dtype == np.float32 and np.size(Xv)) else tol_back)
                 want = "p(t(points as %s)) != points" % form
             if not ok:
                 fails.append(Failure(cls, "left-inverse-argument-form", "%s: %s (root %r)" % (want, e, st["root"])))
@@ -1698,6 +1924,15 @@ class C04(Check):
         for f in self.PROBE_FORMS:
             if not notes.get("apply_forms:%s" % f):
                 out.append("probe points in form %s never applied" % f)
+        for r in scale_letters(self.tier):
+            _b, k = split_scale(r)
+            if k and not notes.get("scale:%s:%s" % (r[0], k)):
+                out.append("scale letter %s of family %s never exercised" % (k, r[0]))
+        for f in ("A", "PWA"):
+            if not notes.get("equivariance:%s" % f):
+                out.append("scale equivariance of family %s never checked" % f)
+        if not notes.get("structure:large-size"):
+            out.append("no large-size letter exercised")
         for k in ("apply-wrong-dims", "vector-wrong-size", "vector-singular", "compose-foreign-operand", "target-wrong-count", "target-wrong-dims", "constructor-mismatched-landmarks", "apply-outside-domain"):
             if not any(n.startswith("refuse:%s:" % k) for n in notes):
                 out.append("refusal kind %s never produced a refusal" % k)
@@ -1743,6 +1978,9 @@ class C04(Check):
             "forms excluded because the unchanged tree mishandles them for reasons outside C04 (reported): " + "; ".join("%s with %s (%s)" % (k[0], k[1], v) for k, v in sorted(FORM_EXCLUDED.items())),
             "boundary letters: Homogeneous with a zero bottom-right entry and / or a singular linear block (well conditioned as a whole: the inverse then has a zero corner), identities built by init_identity, uniform scales 1e-5 / 1e5, equal non-uniform scales, rotations by 180 / 360 degrees, Homogeneous in 1-D and 4-D, the smallest landmark sets each alignment accepts (Rotation / Translation 1 point, Similarity / UniformScale 2 points, Affine n_dims+1), target == source, a one-triangle PWA, TPS with 3 landmarks and with target == source, apply() on a single point and on an empty point set; probe points are chosen away from the horizon of projective maps (|v.x+w| >= 0.2 (|v|.|x|+|w|))",
             "not letters (the unchanged tree refuses or the input is singular): AlignmentAffine / AlignmentSimilarity / AlignmentUniformScale with 1 point (LinAlgError), AlignmentAffine with fewer than n_dims+1 points (under-determined: singular normal equations are solved without an error), UniformScale(0), tcoords for an image side of 1 pixel",
+            "scale letters (a small subset of the roots): landmark coordinates x1e-6 / x1e-9 / x1e6, source at pixel scale with the target x1e-4 / x1e-6 and the reverse, a common offset 5e6 on a spread of 5, target nearly equal to the source (relative 1e-7 / 1e-9), plain parameters at 1e-6 / 1e-9 / 1e6 and nearly the identity (1e-7), whole projective matrices x1e-9 / x1e9, 1000 landmarks (alignments) and a 12x12 mesh (PWA); every tolerance is RELATIVE to the magnitude of the data in the space of the compared output (landmarks, translation), never absolute; uniform scalings also check p_s(s y) == s p_1(y)",
+            "AlignmentAffine at x1e-6 / x1e-9 / src-x1e-4 / offset 5e6 (and the small-target kinds, which reach the same fit after pseudoinverse + set_target) is not a letter: its normal equations on homogeneous coordinates (ones next to the coordinates) are ill-conditioned there and the fitted matrix is no longer affine (last row off by 1e-10 / 1e-7 / 1e-11 / 5e-11; 3-D with the offset: condition 1e13) - fit defect, reported",
+            "TPS is exercised only with nearly-equal targets: its system matrix mixes units (cond 2e11 at x1e-6, 1e17 at x1e-9, singular values below the floor at x1e6) and the documented absolute floor min_singular_val=1e-4 truncates every fit whose coordinates are below ~1e-2 (the 'small' letters lower the floor as the docstring asks); offset 5e6 makes the TPS system ill-conditioned (interpolation error 1e-10 relative to the offset): not letters",
             "refused-call letters: any exception counts as the refusal (the property names no type), its type must be the same on retry; not letters because the unchanged tree does not refuse them: pseudoinverse_vector with a wrong-size vector on UniformScale / NonUniformScale (accepted, C05's question), UniformScale / NonUniformScale vectors holding a zero (inverse holds inf, no exception)",
             "singular / ill-conditioned parameter values, folding PWA targets, collinear or coincident landmarks are outside the quantifier and are not enumerated",
         ]
@@ -1776,4 +2014,4 @@ if __name__ == "__main__":
             worst[k] = max(worst.get(k, 0), v)
         print("seed", seed, "failures", nf)
     for k in sorted(worst):
-        print("%-40s err/tol max = %.3g" % (k, worst[k]))
+        print("%-40s err/tol max = %.3g   %r" % (k, worst[k], MAXR_WHO.get(k)))
